@@ -159,6 +159,11 @@ def run(repo, tier) -> Result:
     check_resume("C14", res, repo.method("hexital.core.indicator", "Indicator", "_find_calc_index"), "self.candles", "membership", repo=repo)
     check_calculate_index("C14", res, repo)
     check_rebind("C14", res, repo)
+    # "recomputing an index that already holds a reading reproduces that reading": helpers recomputed for that index are read back
+    # through the cursor calculate_index leaves behind
+    from ..framework_rules import check_cursor_kept
+
+    check_cursor_kept("C14", res, repo)
     from ..driver import check_append_order
 
     check_append_order("C14", res, repo)
